@@ -144,7 +144,7 @@ def world_and_layout(draw, min_envs=1, max_envs=3, max_customs=2, need_ce=None, 
         subs_in_ce = []
         for u in ce_units:
             subs_in_ce += [u + ".f", u + ".p"] if u.startswith("e") else [u]
-        n_groups = draw(st.integers(0, 2)) if subs_in_ce else 0
+        n_groups = draw(st.sampled_from([0, 1, 1, 2, 2, 3])) if subs_in_ce else 0
         if n_groups:
             for s in subs_in_ce:
                 g = draw(st.integers(-1, n_groups - 1))
@@ -362,7 +362,7 @@ def step(draw, info: Info, kinds, focus=None):
                     script=draw(st.lists(st.integers(0, 5), min_size=0, max_size=3)))
     if k in ("trace_out", "kraus", "measure", "povm"):
         pool = mem if (ce and draw(st.integers(0, 3)) > 0) else subs
-        maxn = {"trace_out": 3, "kraus": 2, "measure": 3, "povm": 2}[k]
+        maxn = {"trace_out": 3, "kraus": 3, "measure": 4, "povm": 3}[k]
         n = draw(st.integers(1, min(maxn, len(pool))))
         ts = list(dict.fromkeys(draw(st.permutations(pool))))[:n]
         e = entry_for(ts)
@@ -376,7 +376,7 @@ def step(draw, info: Info, kinds, focus=None):
             d.update(sep=draw(st.booleans()), destructive=draw(st.booleans()), script=draw(st.lists(st.integers(0, 5), min_size=0, max_size=6)))
         if k == "povm":
             d.update(pseed=draw(seeds), nops=draw(st.integers(2, 4)), projective=draw(st.booleans()), destructive=draw(st.booleans()),
-                     partial=draw(st.booleans()),
+                     partial=draw(st.booleans()), unsharp=(draw(st.floats(-8, -2)) if draw(st.integers(0, 4)) == 0 else None),
                      script=draw(st.lists(st.integers(0, 5), min_size=0, max_size=4)))
         return d
     if k == "resize":
